@@ -26,6 +26,7 @@ import (
 
 	"github.com/beevik/etree"
 	"github.com/crewjam/saml"
+	"github.com/crewjam/saml/samlsp"
 	dsig "github.com/russellhaering/goxmldsig"
 	"github.com/russellhaering/goxmldsig/etreeutils"
 	"pgregory.net/rapid"
@@ -59,6 +60,14 @@ type Case struct {
 	// AuthnContext / ForceAuthn: optional request content that must be inside the signed element.
 	AuthnContext string `json:"authn_context,omitempty"` // "" | class ref
 	ForceAuthn   string `json:"force_authn,omitempty"`   // "" | true | false
+
+	// Msg "mw": the AuthnRequest is emitted by samlsp.Middleware (samlsp.New with SignRequest,
+	// then the generated SignatureMethod), started through RequireAccount on a request without session.
+	MWBinding  string `json:"mw_binding,omitempty"`  // Middleware.Binding: "" (unset) | redirect | post
+	IDPOffers  string `json:"idp_offers,omitempty"`  // SSO endpoints in the IdP metadata: "" (both) | redirect | post
+	MWTracker  string `json:"mw_tracker,omitempty"`  // "" stub returning RelayState | default (cookie tracker)
+	MWArtifact bool   `json:"mw_artifact,omitempty"` // Options.UseArtifactResponse
+	MWPath     string `json:"mw_path,omitempty"`     // protected URL the browser asked for
 }
 
 // Prior is one earlier creation on the same SP.
@@ -84,7 +93,7 @@ var unknownMethods = []string{
 	"http://www.w3.org/2000/09/xmldsig#hmac-sha1",
 }
 
-var msgs = []string{"authn-redirect", "authn-post", "logoutreq-redirect", "logoutreq-post", "logoutresp-redirect", "logoutresp-post", "artifact"}
+var msgs = []string{"authn-redirect", "authn-post", "logoutreq-redirect", "logoutreq-post", "logoutresp-redirect", "logoutresp-post", "artifact", "mw"}
 
 var hashOf = map[string]crypto.Hash{
 	dsig.RSASHA1SignatureMethod: crypto.SHA1, dsig.RSASHA256SignatureMethod: crypto.SHA256, dsig.RSASHA384SignatureMethod: crypto.SHA384, dsig.RSASHA512SignatureMethod: crypto.SHA512,
@@ -202,6 +211,17 @@ func gen(t *rapid.T) Case {
 		c.AuthnContext = rapid.SampledFrom([]string{"urn:oasis:names:tc:SAML:2.0:ac:classes:PasswordProtectedTransport", "urn:x:a&b<c>", "x"}).Draw(t, "ctx")
 	}
 	c.ForceAuthn = rapid.SampledFrom([]string{"", "", "true", "false"}).Draw(t, "force")
+	hasMW := c.Msg == "mw"
+	for _, pr := range c.Prior {
+		hasMW = hasMW || pr.Msg == "mw"
+	}
+	if hasMW {
+		c.MWBinding = rapid.SampledFrom([]string{"", "", "redirect", "post"}).Draw(t, "mwbinding")
+		c.IDPOffers = rapid.SampledFrom([]string{"", "redirect", "post", "post"}).Draw(t, "idpoffers")
+		c.MWTracker = rapid.SampledFrom([]string{"", "default"}).Draw(t, "mwtracker")
+		c.MWArtifact = rapid.Bool().Draw(t, "mwartifact")
+		c.MWPath = rapid.SampledFrom([]string{"/", "/app/page?x=1&y=2", "/a%20b"}).Draw(t, "mwpath")
+	}
 	return c
 }
 
@@ -254,6 +274,76 @@ type outcome struct {
 	soap [][]byte
 	err  error
 	pan  any
+	// snap: copy of the wire form (URL text / HTML) taken when the call returned
+	snap string
+	// mw: what the middleware answered
+	status  int
+	relay   string // relay state the tracker handed out ("" unknown)
+	relayOK bool
+}
+
+func (o *outcome) wire() string {
+	if o.url != nil {
+		return o.url.String()
+	}
+	return string(o.page)
+}
+
+type fixedTracker struct{ relay string }
+
+func (f fixedTracker) TrackRequest(http.ResponseWriter, *http.Request, string) (string, error) {
+	return f.relay, nil
+}
+func (f fixedTracker) StopTrackingRequest(http.ResponseWriter, *http.Request, string) error {
+	return nil
+}
+func (f fixedTracker) GetTrackedRequests(*http.Request) []samlsp.TrackedRequest { return nil }
+func (f fixedTracker) GetTrackedRequest(*http.Request, string) (*samlsp.TrackedRequest, error) {
+	return nil, http.ErrNoCookie
+}
+
+// parties: the ONE ServiceProvider value and the ONE Middleware all steps of a case act on.
+type parties struct {
+	sp *saml.ServiceProvider
+	mw *samlsp.Middleware
+}
+
+func offered(c Case, binding string) bool { return c.IDPOffers == "" || c.IDPOffers == binding }
+
+func (p *parties) middleware(c Case) (*samlsp.Middleware, error) {
+	if p.mw != nil {
+		return p.mw, nil
+	}
+	k := fix.Get(c.Key)
+	md := buildSP0(c).IDPMetadata
+	var sso []saml.Endpoint
+	for _, e := range md.IDPSSODescriptors[0].SingleSignOnServices {
+		if (e.Binding == saml.HTTPRedirectBinding && offered(c, "redirect")) || (e.Binding == saml.HTTPPostBinding && offered(c, "post")) {
+			sso = append(sso, e)
+		}
+	}
+	md.IDPSSODescriptors[0].SingleSignOnServices = sso
+	opts := samlsp.Options{EntityID: c.EntityID, URL: mustURL("https://sp.example.com/"), Key: k.Key, Certificate: k.Cert, IDPMetadata: md,
+		SignRequest: true, ForceAuthn: c.ForceAuthn == "true", UseArtifactResponse: c.MWArtifact}
+	if c.AuthnContext != "" {
+		opts.RequestedAuthnContext = &saml.RequestedAuthnContext{Comparison: "exact", AuthnContextClassRef: c.AuthnContext}
+	}
+	m, err := samlsp.New(opts)
+	if err != nil {
+		return nil, err
+	}
+	switch c.MWBinding {
+	case "redirect":
+		m.Binding = saml.HTTPRedirectBinding
+	case "post":
+		m.Binding = saml.HTTPPostBinding
+	}
+	// the default tracker signs its cookie as ES256 / RS256 with the SP key: only P-256 and RSA keys can
+	if c.MWTracker != "default" || c.Key == "p384" || c.Key == "p521" {
+		m.RequestTracker = fixedTracker{c.RelayState}
+	}
+	p.mw = m
+	return m, nil
 }
 
 // capture records what the SP sends to the IdP's artifact resolution endpoint.
@@ -265,13 +355,53 @@ func (c *capture) RoundTrip(r *http.Request) (*http.Response, error) {
 	return nil, errors.New("harness: request captured, no IdP behind this transport")
 }
 
-func run(sp *saml.ServiceProvider, c Case) (o outcome) {
+func run(p *parties, c Case) (o outcome) {
 	defer func() {
 		if r := recover(); r != nil {
 			o.pan = r
 		}
+		o.snap = strings.Clone(o.wire())
 	}()
+	sp := p.sp
+	sp.SignatureMethod = c.Method
+	sp.HTTPClient = nil
 	switch c.Msg {
+	case "mw":
+		m, err := p.middleware(c)
+		if err != nil {
+			o.err = fmt.Errorf("harness: samlsp.New: %v", err)
+			return o
+		}
+		m.ServiceProvider.SignatureMethod = c.Method
+		path := c.MWPath
+		if path == "" {
+			path = "/"
+		}
+		w := httptest.NewRecorder()
+		r := httptest.NewRequest("GET", "https://sp.example.com"+path, nil)
+		m.RequireAccount(http.HandlerFunc(func(w http.ResponseWriter, _ *http.Request) { w.WriteHeader(http.StatusTeapot) })).ServeHTTP(w, r)
+		o.status = w.Code
+		if _, stub := m.RequestTracker.(fixedTracker); stub {
+			o.relay, o.relayOK = c.RelayState, true
+		} else {
+			for _, ck := range w.Result().Cookies() {
+				if strings.HasPrefix(ck.Name, "saml_") {
+					o.relay, o.relayOK = strings.TrimPrefix(ck.Name, "saml_"), true
+				}
+			}
+		}
+		switch {
+		case w.Code == http.StatusFound:
+			u, err := url.Parse(w.Header().Get("Location"))
+			if err != nil {
+				o.err = fmt.Errorf("Location header does not parse: %v", err)
+			}
+			o.url = u
+		case w.Code == http.StatusOK:
+			o.page = append([]byte(nil), w.Body.Bytes()...)
+		default:
+			o.err = fmt.Errorf("HTTP status %d: %s", w.Code, strings.TrimSpace(w.Body.String()))
+		}
 	case "authn-redirect":
 		o.url, o.err = sp.MakeRedirectAuthenticationRequest(c.RelayState)
 	case "authn-post":
@@ -376,7 +506,7 @@ func needsEscaping(s string) bool {
 // checkRedirectSignature: the query must contain, contiguously,
 // SAMLRequest=..[&RelayState=..]&SigAlg=..&Signature=.. and the signature must
 // verify over exactly the octets from "SAMLRequest=" up to "&Signature=".
-func checkRedirectSignature(c Case, cert *x509.Certificate, wire string) (msg string, relayShaped bool) {
+func checkRedirectSignature(c Case, cert *x509.Certificate, wire string, anyRelay bool) (msg string, relayShaped bool) {
 	w := urlw.Split(wire)
 	ps, err := urlw.ParseQuery(w.RawQuery, true)
 	if err != nil {
@@ -399,6 +529,8 @@ func checkRedirectSignature(c Case, cert *x509.Certificate, wire string) (msg st
 	switch {
 	case alg[0] < req[0] || sig[0] != alg[0]+1:
 		return fmt.Sprintf("parameters are not in the order SAMLRequest[,RelayState],SigAlg,Signature\n  query: %q", w.RawQuery), needsEscaping(c.RelayState)
+	case anyRelay && (len(between) == 0 || (len(between) == 1 && between[0].Key == "RelayState")):
+		// the relay state was chosen by the library's own tracker and could not be learnt from the cookie
 	case c.RelayState == "" && len(between) != 0,
 		c.RelayState != "" && !(len(between) == 1 && between[0].Key == "RelayState" && between[0].Value == c.RelayState):
 		var names []string
@@ -583,15 +715,20 @@ func check(c Case) pbt.Result {
 		return pbt.Result{Classes: append(classes, "dontcare:attr-whitespace")}
 	}
 
-	sp := buildSP(c)
+	// ---- all creations first, on ONE ServiceProvider / Middleware value; nothing is judged yet
+	p := &parties{sp: buildSP(c)}
+	type step struct {
+		c Case
+		o outcome
+	}
+	var steps []step
 	for _, pr := range c.Prior {
 		pc := c
 		pc.Method, pc.Msg = pr.Method, pr.Msg
 		if pc.Artifact == "" {
 			pc.Artifact = "AAQAAMFbLinlXaCM+FIxiDwGOLAy2T71gbpO7ZhNzAgEANlB90ECfpNEVLg="
 		}
-		sp.SignatureMethod = pr.Method
-		_ = run(sp, pc) // outcome of earlier creations is not judged here
+		steps = append(steps, step{c: pc, o: run(p, pc)})
 	}
 	if len(c.Prior) > 0 {
 		classes = append(classes, "sequence-on-one-sp")
@@ -600,50 +737,130 @@ func check(c Case) pbt.Result {
 	if c.AuthnContext != "" || c.ForceAuthn != "" {
 		classes = append(classes, "request-options")
 	}
-	sp.SignatureMethod = c.Method
-	sp.HTTPClient = nil
-	o := run(sp, c)
-	if o.pan != nil {
-		return fail(classes, "%s with key %s and method %q panics: %v", c.Msg, c.Key, c.Method, o.pan)
+	steps = append(steps, step{c: c, o: run(p, c)})
+	for _, st := range steps {
+		if st.c.Msg == "mw" {
+			classes = append(classes, "mw:binding="+c.MWBinding+",idp-offers="+c.IDPOffers)
+			if c.MWTracker == "default" {
+				classes = append(classes, "mw:default-tracker")
+			}
+			break
+		}
 	}
+
+	// ---- every result is judged now, with the method that was in force when it was created
+	for i := range steps {
+		st := &steps[i]
+		where := ""
+		if len(steps) > 1 {
+			where = fmt.Sprintf("step %d of %d: ", i+1, len(steps))
+		}
+		if st.o.wire() != st.o.snap {
+			return fail(classes, "%s%s: the value returned by this call changed while later messages were created\n  at creation: %q\n  now:         %q", where, st.c.Msg, trunc(st.o.snap, 600), trunc(st.o.wire(), 600))
+		}
+		msg, excluded := judge(p, st.c, st.o)
+		if excluded != "" {
+			return pbt.Result{Classes: append(classes, excluded)}
+		}
+		if msg != "" {
+			return fail(classes, "%s%s", where, msg)
+		}
+	}
+	if exp == "sign" {
+		classes = append(classes, "verified")
+	}
+	if exp == "refuse" {
+		nontrivial = true
+	}
+	return pbt.Result{NonTrivial: nontrivial, Classes: classes}
+}
+
+// judge applies the oracle to one creation.  It returns a violation text, or the
+// name of an exclusion class (development switches), or two empty strings.
+func judge(p *parties, c Case, o outcome) (msg string, excluded string) {
+	exp := expectation(c)
+	if o.pan != nil {
+		return fmt.Sprintf("%s with key %s and method %q panics: %v", c.Msg, c.Key, c.Method, o.pan), ""
+	}
+	hasQuery := strings.Contains(c.SSO, "?") && (c.Msg == "authn-redirect" || c.Msg == "mw")
 	if exp == "refuse" {
 		produced := o.url != nil || len(o.page) > 0 || o.art != nil || len(o.soap) > 0
 		if o.err == nil {
-			return fail(classes, "%s: method %q does not fit key %s (or is unknown) but no error is returned (message produced: %v)", c.Msg, c.Method, c.Key, produced)
+			return fmt.Sprintf("%s: method %q does not fit key %s (or is unknown) but no error is returned (message produced: %v)", c.Msg, c.Method, c.Key, produced), ""
 		}
 		if produced {
-			return fail(classes, "%s: method %q is refused (%v) but a message is returned as well", c.Msg, c.Method, o.err)
+			return fmt.Sprintf("%s: method %q is refused (%v) but a message is returned as well", c.Msg, c.Method, o.err), ""
 		}
-		return pbt.Result{NonTrivial: true, Classes: classes}
+		return "", ""
+	}
+	sp := p.sp
+	if c.Msg == "mw" {
+		// a configured binding the IdP does not offer is a configuration error: refusing is fine
+		if o.err != nil && ((c.MWBinding == "redirect" && !offered(c, "redirect")) || (c.MWBinding == "post" && !offered(c, "post"))) {
+			return "", ""
+		}
+		if p.mw != nil {
+			sp = &p.mw.ServiceProvider
+		}
 	}
 	if o.err != nil {
-		return fail(classes, "%s: method %q fits key %s but creation fails: %v", c.Msg, c.Method, c.Key, o.err)
+		return fmt.Sprintf("%s: method %q fits key %s but creation fails: %v", c.Msg, c.Method, c.Key, o.err), ""
 	}
+	keep := sp.SignatureMethod
+	sp.SignatureMethod = c.Method
 	cert, advertised, err := publishedCert(sp)
+	sp.SignatureMethod = keep
 	if err != nil {
-		return fail(classes, "published metadata: %v", err)
+		return fmt.Sprintf("published metadata: %v", err), ""
 	}
 	if !advertised {
-		return fail(classes, "signing is configured but the published metadata does not say AuthnRequestsSigned=true")
+		return "signing is configured but the published metadata does not say AuthnRequestsSigned=true", ""
 	}
 
-	var msg string
-	switch c.Msg {
-	case "authn-redirect":
-		var relayShaped bool
-		msg, relayShaped = checkRedirectSignature(c, cert, o.url.String())
-		if msg != "" && relayShaped && os.Getenv("VERIF_EXCLUDE_RELAYSTATE_UNESCAPED") == "1" {
-			return pbt.Result{Classes: append(classes, "excluded:relaystate-unescaped")}
+	redirect := func(cc Case, anyRelay bool) (string, string) {
+		m, relayShaped := checkRedirectSignature(cc, cert, o.url.String(), anyRelay)
+		if m != "" && relayShaped && os.Getenv("VERIF_EXCLUDE_RELAYSTATE_UNESCAPED") == "1" {
+			return "", "excluded:relaystate-unescaped"
 		}
-		if msg != "" && hasQuery && os.Getenv("VERIF_EXCLUDE_REDIRECT_QUERY_SIGNED") == "1" {
-			return pbt.Result{Classes: append(classes, "excluded:redirect-query-signed")}
+		if m != "" && hasQuery && os.Getenv("VERIF_EXCLUDE_REDIRECT_QUERY_SIGNED") == "1" {
+			return "", "excluded:redirect-query-signed"
 		}
-		if msg == "" {
+		if m == "" {
 			// the redirect-binding request must not ALSO be unverifiable inside: if it
 			// carries an enveloped signature that one has to verify too.
 			if x, m2 := payloadOfURL(o.url.String(), "SAMLRequest"); m2 == "" && strings.Contains(string(x), "Signature") {
-				msg = verifyEnveloped(c, cert, x, "AuthnRequest")
+				m = verifyEnveloped(cc, cert, x, "AuthnRequest")
 			}
+		}
+		return m, ""
+	}
+	switch c.Msg {
+	case "authn-redirect":
+		if msg, excluded = redirect(c, false); excluded != "" {
+			return "", excluded
+		}
+	case "mw":
+		// whatever binding the middleware chose: the AuthnRequest it emitted must verify
+		cc := c
+		cc.RelayState = o.relay
+		switch {
+		case o.url != nil:
+			if _, m2 := payloadOfURL(o.url.String(), "SAMLRequest"); m2 != "" {
+				return fmt.Sprintf("mw: the middleware redirected to %q: %s", trunc(o.url.String(), 300), m2), ""
+			}
+			if msg, excluded = redirect(cc, !o.relayOK); excluded != "" {
+				return "", excluded
+			}
+		case len(o.page) > 0:
+			var x []byte
+			if x, msg = payloadOfPage(o.page, "SAMLRequest"); msg == "" {
+				msg = verifyEnveloped(cc, cert, x, "AuthnRequest")
+			}
+		default:
+			msg = fmt.Sprintf("the middleware answered %d with neither a redirect nor a form", o.status)
+		}
+		if msg != "" {
+			msg = fmt.Sprintf("(Middleware.Binding=%q, IdP offers %q) %s", c.MWBinding, c.IDPOffers, msg)
 		}
 	case "authn-post":
 		var x []byte
@@ -672,17 +889,16 @@ func check(c Case) pbt.Result {
 		}
 	case "artifact":
 		if len(o.soap) != 1 {
-			return fail(classes, "an artifact at the ACS made the SP send %d requests to the artifact resolution service, want 1", len(o.soap))
+			return fmt.Sprintf("an artifact at the ACS made the SP send %d requests to the artifact resolution service, want 1", len(o.soap)), ""
 		}
 		if msg = verifyEnveloped(c, cert, o.soap[0], "ArtifactResolve@soap"); msg != "" {
 			msg = "SOAP request sent to the artifact resolution service: " + msg
 		}
 	}
 	if msg != "" {
-		return fail(classes, "%s, key %s, %s: %s", c.Msg, c.Key, c.Method, msg)
+		return fmt.Sprintf("%s, key %s, %s: %s", c.Msg, c.Key, c.Method, msg), ""
 	}
-	classes = append(classes, "verified")
-	return pbt.Result{NonTrivial: nontrivial, Classes: classes}
+	return "", ""
 }
 
 // ---------------------------------------------------------------- exhaustive grid
@@ -745,6 +961,40 @@ func enumSequences(_ string, emit func(Case)) {
 	}
 }
 
+// enumMiddleware: samlsp.Middleware as emission path: Binding unset / redirect / POST x IdP offering
+// both / only redirect / only POST x key family x fitting, mismatching and unknown method x tracker x
+// endpoint without / with a query, alone and after / before a direct creation on the same case.
+func enumMiddleware(_ string, emit func(Case)) {
+	for _, k := range []string{"sp", "spec", "rsa1024", "p521"} {
+		fit, other := rsaMethods, ecMethods
+		if !isRSAKey(k) {
+			fit, other = ecMethods, rsaMethods
+		}
+		for _, m := range []string{fit[0], fit[1], fit[3], other[1], unknownMethods[1]} {
+			for _, b := range []string{"", "redirect", "post"} {
+				for _, offers := range []string{"", "redirect", "post"} {
+					for _, tr := range []string{"", "default"} {
+						for _, ep := range []string{"https://idp.example.org/saml", "https://idp.example.org/saml?tenant=1"} {
+							c := Case{Key: k, Method: m, Msg: "mw", RelayState: "a b&c=d", NameID: "user@example.com", RequestID: "id-123", SSO: ep, SLO: ep, MWBinding: b, IDPOffers: offers, MWTracker: tr, MWPath: "/app?x=1"}
+							emit(c)
+							if tr == "" && ep == "https://idp.example.org/saml" {
+								c2 := c
+								c2.Prior = []Prior{{Method: fit[2], Msg: "authn-post"}, {Method: fit[2], Msg: "mw"}}
+								c2.ForceAuthn, c2.MWArtifact = "true", true
+								emit(c2)
+								c3 := c
+								c3.Msg = "authn-post"
+								c3.Prior = []Prior{{Method: m, Msg: "mw"}}
+								emit(c3)
+							}
+						}
+					}
+				}
+			}
+		}
+	}
+}
+
 // enumCRText: a carriage return in every text-position content, each message kind, RSA and ECDSA.
 func enumCRText(_ string, emit func(Case)) {
 	for _, k := range []string{"sp", "spec"} {
@@ -760,19 +1010,20 @@ func enumCRText(_ string, emit func(Case)) {
 
 var prop = &pbt.Prop[Case]{
 	ID: "C13",
-	Rule: "cases: signature method (8 supported URIs, 8 unknown / blank-but-set strings) x key (RSA-1024/2048/3072/4096, P-256/384/521) x message (AuthnRequest redirect/POST, LogoutRequest redirect/POST, LogoutResponse redirect/POST, ArtifactResolve bare and in its SOAP envelope) x relay states x IdP endpoints with/without a query x optional request content (RequestedAuthnContext, ForceAuthn) x sequences of creations on one ServiceProvider value with SignatureMethod changed in between; the complete grid is enumerated, rapid adds relay states, name IDs, request IDs, artifacts and endpoints. " +
-		"oracle: certificate = the signing certificate in xml.Unmarshal(xml.Marshal(sp.Metadata())) (AuthnRequestsSigned must be true); redirect AuthnRequest: the query contains SAMLRequest[,RelayState],SigAlg,Signature contiguously and the signature verifies (stdlib RSA PKCS#1 v1.5 / ECDSA, DER or r||s) over exactly the octets from 'SAMLRequest=' up to '&Signature='; every other message: exactly one Signature child with the configured SignatureMethod, validated by a fresh goxmldsig context trusting only that certificate, on the bytes re-parsed from the wire; mismatching or unknown method: error and no message, never a panic. " +
+	Rule: "cases: signature method (8 supported URIs, 8 unknown / blank-but-set strings) x key (RSA-1024/2048/3072/4096, P-256/384/521) x message (AuthnRequest redirect/POST, LogoutRequest redirect/POST, LogoutResponse redirect/POST, ArtifactResolve in its SOAP envelope as sent, AuthnRequest as emitted by samlsp.Middleware (samlsp.New with SignRequest; Binding unset / redirect / POST x IdP offering both / only redirect / only POST SSO endpoints x stub / default request tracker x UseArtifactResponse)) x relay states x IdP endpoints with/without a query x optional request content (RequestedAuthnContext, ForceAuthn) x sequences of creations on one ServiceProvider value with SignatureMethod changed in between; the complete grid is enumerated, rapid adds relay states, name IDs, request IDs, artifacts and endpoints. " +
+		"oracle: certificate = the signing certificate in xml.Unmarshal(xml.Marshal(sp.Metadata())) (AuthnRequestsSigned must be true); redirect AuthnRequest: the query contains SAMLRequest[,RelayState],SigAlg,Signature contiguously and the signature verifies (stdlib RSA PKCS#1 v1.5 / ECDSA, DER or r||s) over exactly the octets from 'SAMLRequest=' up to '&Signature='; every other message: exactly one Signature child with the configured SignatureMethod, validated by a fresh goxmldsig context trusting only that certificate, on the bytes re-parsed from the wire; mismatching or unknown method: error (middleware: error status) and no message, never a panic; all results of a sequence are kept and judged after the last creation, each under the method in force when it was made, and must not have changed meanwhile. " +
 		"non-trivial: method refused, or endpoint with a query, or a relay state that needs escaping. distinct: sha256 of the JSON case.",
 	Gen:   gen,
 	Check: check,
 	Reset: fix.Reset,
-	Enums: []pbt.Enum[Case]{{Name: "method-x-key-x-message-grid", Each: enumGrid}, {Name: "carriage-return-in-text-contents", Each: enumCRText}, {Name: "sequences-on-one-sp-and-request-options", Each: enumSequences}},
+	Enums: []pbt.Enum[Case]{{Name: "method-x-key-x-message-grid", Each: enumGrid}, {Name: "carriage-return-in-text-contents", Each: enumCRText}, {Name: "sequences-on-one-sp-and-request-options", Each: enumSequences}, {Name: "middleware-binding-x-idp-offers-x-method", Each: enumMiddleware}},
 	Assumptions: []string{
 		"SignatureMethod \"\" means signing is not configured and is outside this property",
 		"SP Intermediates are not configured (not in the property's quantifier)",
 		"literal TAB / LF / CR inside attribute-position contents (request ID -> InResponseTo; entity ID -> SPNameQualifier) are counted, not judged: XML attribute-value normalisation, property silent",
 		"the ECDSA enveloped SignatureValue is judged by goxmldsig's own validation (the observation point the property names), whatever its DER / r||s layout",
 		"parameters following Signature in a redirect query are not judged",
+		"middleware: which binding it picks is not judged, only that the AuthnRequest it emits verifies; a configured Binding the IdP does not offer may be refused; the default cookie tracker is used only with keys its JWT codec supports (RSA, P-256), its relay state is learnt from the saml_<index> cookie",
 	},
 }
 
